@@ -242,10 +242,7 @@ def check_tree(case: Dict[str, Any]) -> Tuple[List[Tuple[str, str]], Dict[str, A
                     if not reported:
                         out.append(('module-not-analysed', 'module %s (%s) is in state %s and no "cannot parse" message names its file' % (o.fullName(), sp, o.state)))
         # (c) output inventory
-        single_hidden_root = len(s.rootobjects) == 1 and not s.rootobjects[0].isVisible
         for f in SUMMARY_FILES:
-            if f == 'index.html' and single_hidden_root:
-                continue  # index.html is the page of the only root, which the user asked to hide
             if not os.path.exists(os.path.join(r.out, f)):
                 out.append(('missing-output', 'output file %s was not written' % f))
 
@@ -253,7 +250,7 @@ def check_tree(case: Dict[str, Any]) -> Tuple[List[Tuple[str, str]], Dict[str, A
             if not o.isVisible:
                 return
             if o.documentation_location is model.DocLocation.OWN_PAGE:
-                if not os.path.exists(os.path.join(r.out, o.url)):
+                if not os.path.exists(os.path.join(r.out, unquote(o.url))):
                     out.append(('missing-output', 'no page %r for visible %s' % (o.url, o.fullName())))
             for c in o.contents.values():
                 walk(c)
